@@ -70,6 +70,10 @@ WithinPolicy(st, v, isClient) ==
   \* the server checks the size of the client's key when it authenticated with a certificate
   /\ (~isClient /\ v.cltKeyBits > 0 => (v.cltKeyBits >= st.minKey /\ v.cltKeyBits <= st.maxKey))
   /\ (v.alpn # "" => \E i \in 1..Len(st.alpn) : st.alpn[i] = v.alpn)
+  \* the signature the server made (as the client verified it): hash and RSA padding scheme enabled on this side
+  /\ (v.sigKind = "ecdsa" => v.sigHash \in st.ecdsaHashes)
+  /\ (v.sigKind = "rsa-pkcs1" => ("pkcs1" \in st.rsaSchemes /\ v.sigHash \in st.rsaHashes))
+  /\ (v.sigKind = "rsa-pss" => ("pss" \in st.rsaSchemes /\ v.sigHash \in st.rsaHashes))
   \* a PSK is combined with a key exchange mode this side allows (psk_ke gives up forward secrecy)
   /\ (v.pskMode # "" => v.pskMode \in st.pskModes)
 
